@@ -389,6 +389,19 @@ fn enumerate6(seed: u64, run: u64, tier: Tier, slices: u64) -> Plan {
                 a += n;
             }
         }
+        // whole fields exchanged: every pair of 16-, 32- and 48-byte pieces at 16-byte offsets over the
+        // whole blob (tag, nonce or ephemeral key, ciphertext, salt, parameters ... in another order)
+        if total <= 200 {
+            for n in [16usize, 32, 48] {
+                for a in (0..total).step_by(16) {
+                    for b2 in (a + n..total).step_by(16) {
+                        if b2 + n <= total {
+                            read(&mut b, vec![BlobFault::SwapRanges { a, b: b2, n }], &with_u);
+                        }
+                    }
+                }
+            }
+        }
     }
     let step = if slow { 9 } else { 1 };
     for keep in (0..total).step_by(step) {
